@@ -167,7 +167,19 @@ func (a *asm) straight(avoidB bool) {
 			a.emit(pf, uint8(0x60|r.Intn(2)<<3|[]int{2, 3, 7}[r.Intn(3)])) // LD IXH/IXL,r
 		}
 	case 21:
-		a.emit([]uint8{0x27, 0x2f, 0x37, 0x3f, 0x07, 0x0f, 0x17, 0x1f}[r.Intn(8)])
+		// DAA CPL SCF CCF RLCA RRCA RLA RRA; SCF/CCF twice as likely and half of the time
+		// right behind an instruction that wrote the flags (implementations that emulate
+		// the Q latch make SCF/CCF depend on whether the previous instruction did)
+		if r.Bool() {
+			a.emit(uint8(0x80 | r.Intn(8)<<3 | a.reg(false)))
+		}
+		a.emit([]uint8{0x27, 0x2f, 0x37, 0x3f, 0x37, 0x3f, 0x07, 0x0f, 0x17, 0x1f}[r.Intn(10)])
+		if r.Bool() {
+			// ... and AF is written to the data page without touching a register, so that all
+			// eight flag bits of this moment are part of the final memory image:
+			// PUSH AF ; EX (SP),HL ; LD (40xx),HL ; EX (SP),HL ; POP AF
+			a.emit(0xf5, 0xe3, 0x22, uint8(0x02+2*r.Intn(0x70)), 0x40, 0xe3, 0xf1)
+		}
 	case 22:
 		a.emit(0xed, 0x44) // NEG
 	case 23:
